@@ -182,6 +182,9 @@ def service_programs():
         for ctx in [[], ["server-request-context"]]:
             eps.append(space.endpoint("noArgs%d" % n, "GET", "/n/%d" % n, [], auth=auth, tags=ctx))
             eps.append(space.endpoint("args%d" % n, "PUT", "/a/%d/{p}" % n, [space.arg("p", I, "path"), space.arg("q", space.opt(S), "query", "q"), space.arg("body", R("Obj"), "body")], returns=space.lst(S), auth=auth, tags=ctx))
+            # safe-to-log arguments of every kind next to the request context
+            eps.append(space.endpoint("safeArgs%d" % n, "POST", "/s/%d/{p}/{e}" % n, [space.arg("p", I, "path", safety="SAFE"), space.arg("e", R("E"), "path"), space.arg("q", space.opt(S), "query", "q", markers=[space.SAFE_MARKER]),
+                                                                                 space.arg("h", S, "header", "X-H", tags=["safe"]), space.arg("body", space.lst(R("E")), "body")], returns=S, auth=auth, tags=ctx))
             n += 1
     for body, ret in [(BIN, None), (None, BIN), (BIN, BIN), (None, OBIN), (ABIN, ABIN), (OBIN, None), (space.opt(R("Obj")), space.opt(R("Obj"))), (R("AliasOpt"), R("AliasOpt")), (R("AliasList"), R("AliasList")), (space.prim("ANY"), space.prim("ANY")), (None, space.opt(ABIN))]:
         args = [space.arg("body", body, "body")] if body is not None else []
@@ -202,6 +205,29 @@ def service_programs():
     progs.append(Program("svc_only_optbin", "service whose only streaming endpoint returns optional<binary>", space.ir([], [space.service("OptBin", [space.endpoint("get", "GET", "/g", [], returns=OBIN), space.endpoint("other", "GET", "/o", [], returns=S)], PKG)]), cls="service:only-optional-binary-return"))
     progs.append(Program("svc_only_binreq", "service whose only streaming endpoint takes a binary body", space.ir([], [space.service("BinReq", [space.endpoint("put", "POST", "/p", [space.arg("body", BIN, "body")]), space.endpoint("other", "GET", "/o", [], returns=S)], PKG)]), cls="service:only-binary-request"))
     progs.append(Program("svc_alias_optbin", "service returning an alias of optional<binary>", space.ir([space.alias("MaybeBlob", OBIN, PKG)], [space.service("AliasOptBin", [space.endpoint("get", "GET", "/g", [], returns=R("MaybeBlob"))], PKG)]), cls="service:alias-of-optional-binary-return"))
+    return progs
+
+
+def external_programs():
+    """external (imported) types with every primitive fallback in every position, keys included"""
+    progs = []
+    prims = ["STRING", "INTEGER", "DOUBLE", "BOOLEAN", "SAFELONG", "UUID", "RID", "DATETIME", "BEARERTOKEN", "BINARY", "ANY"]
+    keyable = {"STRING", "INTEGER", "DOUBLE", "BOOLEAN", "SAFELONG", "UUID", "RID", "DATETIME", "BEARERTOKEN"}
+    plain = {"STRING", "INTEGER", "DOUBLE", "BOOLEAN", "SAFELONG", "UUID", "RID", "DATETIME"}
+    for pn in prims:
+        ext = space.external("Ext" + pn.capitalize(), "com.elsewhere", space.prim(pn))
+        fields = [space.field("plain", ext), space.field("maybe", space.opt(ext)), space.field("many", space.lst(ext)), space.field("vals", space.mp(S, ext))]
+        if pn in keyable:
+            fields += [space.field("uniq", space.st(ext)), space.field("byKey", space.mp(ext, S)), space.field("nested", space.lst(space.st(ext))), space.field("optSet", space.opt(space.st(ext))), space.field("keyed", space.mp(ext, space.lst(ext)))]
+        types = [space.obj("Holder", fields, PKG), space.union("Pick", [space.field("one", ext)] + ([space.field("some", space.st(ext))] if pn in keyable else []), PKG), space.alias("Al", ext, PKG)]
+        if pn in keyable:
+            types.append(space.alias("AlSet", space.st(ext), PKG))
+        args = [space.arg("body", ext, "body")]
+        if pn in plain:
+            args += [space.arg("p", ext, "path"), space.arg("q", space.opt(ext), "query", "q"), space.arg("qs", space.st(ext) if pn in keyable else space.lst(ext), "query", "qs"), space.arg("h", ext, "header", "X-H")]
+        ep = space.endpoint("go", "POST", "/go/{p}" if pn in plain else "/go", args, returns=space.opt(ext))
+        err = space.error("ExtErr", "Verif", "INTERNAL", [space.field("s", ext)], [space.field("u", space.opt(ext))], PKG)
+        progs.append(Program("ext_%s" % pn.lower(), "external type with fallback %s in every position" % pn.lower(), space.ir(types, [space.service("ExtSvc", [ep], PKG)], [err]), cls="external:" + pn.lower()))
     return progs
 
 
@@ -226,7 +252,7 @@ def run(a, rep):
     t0 = time.time()
     progs = []
     sp, shs = shape_programs(thorough)
-    progs += sp + param_programs() + name_programs(thorough) + [recursion_program()] + package_programs() + service_programs() + config_programs()
+    progs += sp + param_programs() + name_programs(thorough) + [recursion_program()] + package_programs() + service_programs() + external_programs() + config_programs()
     ids = [p.pid for p in progs]
     dup = sorted({i for i in ids if ids.count(i) > 1})
     if dup:
